@@ -86,6 +86,15 @@ chk("C17", "contract on every deserializer under hostile workloads: grammar-awar
     "Outcome must be None / ValueError / a problem with the URL's dimensions that re-encodes and whose canonical text decodes to itself; ~10^5 strings quick, "
     "10^7 + libFuzzer thorough; witness = the string.", "allowed outcomes exactly as stated by the property; env dimensions >= 1 for direct combinator calls", "DESIGN.md §3 C17")
 
+chk("C18", "class invariant + purity checks hooked on SegmentationBuilder2D.initial()/copy_with_update() (M-SEG), observed over random walks through the builder's own candidates",
+    "Every value produced in ~10^3 (thorough 5*10^4) walks over boards 1x1..8x8 and bound configurations is checked to be a partition into connected blocks "
+    "inside the bounds; the updated-from value is compared with a deep snapshot and every value ever produced is re-verified at the end.",
+    "bound configurations generated around a target partition (satisfiable); unmet-first runs judged for bounds only once inside them", "DESIGN.md §3 C18")
+chk("C19", "recorded-history checker (M-GEN) around the real generate_problem: solver/uniqueness/pretest callbacks, neighbour generator and every srandom draw; scripted entropy source for the PRNG arithmetic",
+    "Soundness of the returned problem, neighbour law (one builder, choice set, symmetry, adjacency), purity of all problems, reproducibility over repetitions "
+    "with different global-random state and equal callbacks (incl. z3 vs stand-in backend), exact accept/reject mapping of randint/choice/shuffle/random.",
+    "symmetric disallow_adjacent offset lists only; chi-square part has a 1e-9 false-alarm budget", "DESIGN.md §3 C19")
+
 MANIFEST = dict(
     version=1,
     setup_cmd="./setup.sh",
